@@ -309,6 +309,11 @@ impl ShmWrite for ShmWriter {
             };
             generation.store(gen, atomic::Ordering::Release);
 
+            // The record must not become visible before the odd generation that guards it: a
+            // Release store only orders what precedes it, so a Release fence is required between
+            // the generation store and the (non-atomic) update of the record.
+            atomic::fence(atomic::Ordering::Release);
+
             self.ceb.write(*ceb);
 
             // Mark the end of the update into the memory segment by incrementing the generation
